@@ -33,13 +33,11 @@ def model_case(data, mode, declared=None, frag=None, extra=2, maxs=60, fail=None
     return " ".join(toks)
 
 
-ORDER_DEP = []   # (profile, case dict, [{"call", "first", "later"}]) collected by run_both: answers that changed when the same call was repeated
-
-
 def run_both(cases, profile, want_model=True, revisit=True, **opts):
     """cases: list of dicts {data, [len], [frag], [frag_len], [fail] ...}; returns list of (impl, model) parsed.
     revisit: the harness repeats every sample_offset / read_sample call on the same reader in reverse and in scrambled order and reports answers
-    that differ from the first ones (collected in ORDER_DEP; common.run_check turns them into violations of the property being checked)."""
+    that differ from the first ones (collected by common.harness_run in common.ORDER_DEP; common.run_check turns them into violations of the
+    property being checked)."""
     mode = "d" if profile == "debug" else "r"
     il, ml = [], []
     for c in cases:
@@ -61,9 +59,6 @@ def run_both(cases, profile, want_model=True, revisit=True, **opts):
             ia = json.loads(a)
         except Exception:
             ia = {"dead": a}
-        for sub in (ia, ia.get("frag") if isinstance(ia.get("frag"), dict) else None):
-            if sub and sub.get("order_dep"):
-                ORDER_DEP.append((profile, cases[len(out)], sub["order_dep"]))
         if b is None:
             mb = None
         else:
@@ -291,6 +286,14 @@ def valid_fragmented(rng, n):
                       "with_offset": rng.random() < 0.9, "trun": rng.random() < 0.9, "k0": cnt[t["id"]], "moof_flag": rng.random() < 0.3}
                 clock[t["id"]] += sum(tf["durations"]) if per else k * (tf["tfhd_dur"] or 10)
                 cnt[t["id"]] += k
+                if rng.random() < 0.3:
+                    # several track runs in one track fragment, with different per-sample field sets
+                    tf["extra_truns"] = [{"sizes": [rng.choice([0, 1, 3]) for _ in range(rng.choice([1, 2, 4]))], "data_offset": rng.choice([None, 8, -4]),
+                                          "durations": rng.choice([None, "same"]), "cts": rng.choice([None, "same"])} for _ in range(rng.choice([1, 2]))]
+                    for ex in tf["extra_truns"]:
+                        for fld in ("durations", "cts"):
+                            if ex[fld] == "same":
+                                ex[fld] = [7] * len(ex["sizes"])
                 fr.append(tf)
             frags.append(fr)
         init, fin = isogen.build_fragmented(tracks, frags, trex_dur=rng.choice([0, 10]), large_moof=(i % 5 == 4))
